@@ -329,6 +329,10 @@ class ModelWorld:
         self.fs.files[path] = n
         return key
 
+    def set_next_id(self, n):
+        """the next index row gets primary key n (ids are sparse after deletions)"""
+        self.db.next_id = n
+
     def damage_loose(self, key, size):
         self.fs.files[ModelImage.loose_path(self, key)].data = self.junk(9, size)
 
@@ -415,6 +419,8 @@ class ModelWorld:
             def fn():
                 self.fs.files.pop(path, None)
 
+        elif kind == 'call':  # a whole operation of another actor (real code through another handle)
+            fn = args[0]
         else:
             i, size = args
 
@@ -438,9 +444,10 @@ class ModelWorld:
 
         fs.tick = tick
 
-    def install_commit_monitor(self):
-        """C06 monitor: at every index commit, every row that is new or whose location changed designates bytes inside
-        the synced prefix of its pack; a loose file is unlinked only when a committed row on durable bytes replaces it;
+    def install_commit_monitor(self, durable=True):
+        """(durable=False: the same orderings against the KERNEL-VISIBLE bytes -- the packer's guarantee to concurrent
+        readers, C04.)  C06 monitor: at every index commit, every row that is new or whose location changed designates bytes inside
+        the synced prefix of its pack; a loose file is renamed under its key only when all its bytes are synced; a loose file is unlinked only when a committed row on durable bytes replaces it;
         a pack file is removed or renamed away only when no committed row references it."""
         self.monitor_ok = True
         db, fs = self.db, self.fs
@@ -456,7 +463,7 @@ class ModelWorld:
                     loc = (r['pack_id'], r['offset'], r['length'])
                     if seen.get(r['hashkey']) != loc:
                         node = fs.files.get(root + '/packs/' + str(r['pack_id']))
-                        if node is None or node.synced < r['offset'] + r['length']:
+                        if node is None or (node.synced if durable else len(node.data)) < r['offset'] + r['length']:
                             self.monitor_ok = False
                         seen[r['hashkey']] = loc
             if what[0] == 'unlink' and what[1].startswith(root + '/loose/'):
@@ -465,9 +472,14 @@ class ModelWorld:
                 for r in db.versions[-1]:
                     if r['hashkey'] == key:
                         node = fs.files.get(root + '/packs/' + str(r['pack_id']))
-                        if node is not None and node.synced >= r['offset'] + r['length']:
+                        if node is not None and (node.synced if durable else len(node.data)) >= r['offset'] + r['length']:
                             ok = True
                 if not ok:
+                    self.monitor_ok = False
+            if what[0] == 'rename' and what[2].startswith(root + '/loose/'):
+                # a loose object is published (atomic rename under its key) only with all its bytes on stable storage
+                node = fs.files.get(what[1])
+                if node is None or (durable and node.synced != len(node.data)):
                     self.monitor_ok = False
             if what[0] in ('unlink', 'rename') and what[1].startswith(root + '/packs/') and not what[1].endswith('.lock'):
                 gone = what[1][len(root + '/packs/') :]
@@ -502,8 +514,8 @@ def real_bytes(i, size):
     if not size:
         return b''
     if i in _COMPRESSIBLE:
-        unit = bytes([65 + i % 26]) + b'-compressible-%03d-' % i  # distinct objects differ from the first byte on
-        return (unit * (size // len(unit) + 1))[:size]
+        # distinct objects differ from the first byte on; the rest is a run of zeros (compresses to a dozen bytes)
+        return bytes([65 + i % 26]) + bytes(size - 1)
     return random.Random(1000 + i).randbytes(size)
 
 
@@ -816,6 +828,13 @@ class RealWorld(RealImage):
         self.synced[os.stat(p).st_ino] = size
         return key
 
+    def set_next_id(self, n):
+        con = sqlite3.connect(os.path.join(self.folder, 'packs.idx'))
+        con.execute("INSERT INTO db_object (id, hashkey, pack_id, offset, length, size, compressed) VALUES (?, 'tmp', 0, 0, 0, 0, 0)", (n - 1,))
+        con.execute("DELETE FROM db_object WHERE hashkey = 'tmp'")
+        con.commit()
+        con.close()
+
     def damage_loose(self, key, size):
         with io.open(self.loose_path(key), 'wb') as f:
             f.write(self.junk(9, size))
@@ -961,6 +980,8 @@ class RealWorld(RealImage):
                 except FileNotFoundError:
                     pass
 
+        elif kind == 'call':
+            fn = args[0]
         else:
             i, size = args
 
@@ -973,11 +994,17 @@ class RealWorld(RealImage):
         return self._clock
 
     def observe(self):
+        if getattr(self, '_ofiring', False):
+            return
         self._clock += 1
-        for ev in self._events:
-            if not ev[2] and ev[0] <= self._clock:
-                ev[2] = True
-                ev[1]()
+        self._ofiring = True
+        try:
+            for ev in self._events:
+                if not ev[2] and ev[0] <= self._clock:
+                    ev[2] = True
+                    ev[1]()
+        finally:
+            self._ofiring = False
 
     def _instrument_clock(self):
         if getattr(self, '_events', None) is not None:
@@ -1043,11 +1070,12 @@ class RealWorld(RealImage):
             if f.endswith('.lock'):
                 os.remove(os.path.join(self.folder, 'packs', f))
 
-    def install_commit_monitor(self):
+    def install_commit_monitor(self, durable=True):
         self.c.close()
         self._instrument()
         self.c = self.new_handle()
         self._monitor = True
+        self._monitor_durable = durable
         self._seen = {r['hashkey']: (r['pack_id'], r['offset'], r['length']) for r in self.rows()}
 
     def _monitor_tick(self, what):
@@ -1066,6 +1094,10 @@ class RealWorld(RealImage):
                     ok = True
             if not ok:
                 self.monitor_ok = False
+        if what[0] in ('rename', 'replace') and what[2].startswith(os.path.join(self.folder, 'loose') + os.sep):
+            st = os.stat(what[1])
+            if getattr(self, '_monitor_durable', True) and self.synced.get(st.st_ino, 0) != st.st_size:
+                self.monitor_ok = False
         if what[0] in ('remove', 'unlink', 'rename', 'replace') and what[1].startswith(os.path.join(self.folder, 'packs') + os.sep):
             gone = os.path.basename(what[1])
             if not gone.endswith('.lock'):
@@ -1077,6 +1109,8 @@ class RealWorld(RealImage):
         p = os.path.join(self.folder, 'packs', str(pack_id))
         if not os.path.isfile(p):
             return -1
+        if not getattr(self, '_monitor_durable', True):
+            return os.stat(p).st_size  # kernel-visible bytes
         return self.synced.get(os.stat(p).st_ino, 0)
 
     def _post_commit_check(self):
